@@ -802,6 +802,10 @@ class LockCheck:
         explored = []
         for tag, spec in specs:
             spec = dict(spec, seed=chk.seed, kind=self.lock)
+            # every compare_exchange_weak the REAL code executes is an environment choice point
+            # {behaves as strong, fails spuriously}, at least once per thread, whether or not the
+            # model knows a weak CAS at that site (x86 never produces the failure, only the instrument can)
+            spec["weak"] = max(1, spec.get("weak", 0))
             gname = spec.pop("graph", None)
             spec["snap"] = True
             spec.setdefault("max_secs", 5 if tier == "quick" else 30)
